@@ -49,7 +49,7 @@ func c02Run(c *core.Ctx, i int) *core.Result {
 	g, prog := c02Gen(c, i, 0)
 	text := lang.Plain.Program(prog)
 	res := &core.Result{Input: text, Hash: core.HashOf(text)}
-	ref := &lang.R{}
+	ref := &lang.R{MaxSteps: 20000}
 	rv, rerr := ref.Run(prog, lang.NewEnv(nil))
 	if rerr != nil && rerr.Kind == "budget" {
 		res.Verdict, res.Key = core.Inconclusive, "ref-budget"
@@ -82,7 +82,7 @@ func c02Run(c *core.Ctx, i int) *core.Result {
 	if rerr != nil {
 		res.Ev("ref_errors", 1)
 	}
-	budget := int64(2000*ref.Steps + 100000)
+	budget := int64(400*ref.Steps + 100000)
 	renderings := []string{text, (&lang.Printer{Noise: core.NewRng(c.Seed, "C02n", i, 1)}).Program(prog)}
 	for ri, t := range renderings {
 		s := NewSutRun(false)
